@@ -558,7 +558,11 @@ pub fn step(snap: &Snapshot, op: &Op, results: &[ResSpec], verbose: bool) -> St 
                 // metadata and SBOM files must be gone with it - otherwise the next build is shown
                 // valid-looking metadata for an emptied directory and may keep it
                 let deleted: Vec<String> = pre.files.0.keys().filter(|k| !post.files.0.contains_key(*k)).map(|k| String::from_utf8_lossy(k).to_string()).collect();
-                if !deleted.is_empty() && (post.toml.is_some() || !post.sboms.is_empty()) {
+                if deleted.is_empty() && post.types() != pre.types() {
+                    // nothing was deleted, nothing was created or updated: the layer's declared types
+                    // are still the ones it had (a refused migration or strategy decides nothing)
+                    bad = Some(("failed-call-changed-types".into(), format!("{ctxs}: the call failed without replacing the layer, but its types on disk changed from {:?} to {:?}", pre.types(), post.types())));
+                } else if !deleted.is_empty() && (post.toml.is_some() || !post.sboms.is_empty()) {
                     bad = Some(("failed-recreate-kept-metadata-of-deleted-content".into(), format!("{ctxs}: the call failed after deleting {deleted:?} of the old layer, but the layer still has [{}]", post.describe())));
                 }
             }
